@@ -308,3 +308,46 @@ Qed.
 (* the only spelling that begins with `@` is the response-file row, which is never rendered (TooHard) *)
 Lemma at_rows : map flag_str (filter (fun i => first_is_at (flag_str i)) all_rows) = [bs "@"].
 Proof. vm_compute. reflexivity. Qed.
+
+(* ------------------------------------------------------------------ generate_hash_key (c.rs), as transcribed by the translator *)
+
+Definition dropped_preds (spec : list keycomp) : list bytes :=
+  flat_map (fun c => match c with KFiltered _ pr => [pr] | _ => [] end) spec.
+
+(* REVIEWED: predicates by which generate_hash_key may remove words from an argument vector AFTER parse_arguments has
+   classified them.  Empty: whatever parse_arguments puts into common_args / arch_args / preprocessor_args reaches the
+   keys.  (Stored entries carry the compiler's stderr, so even an option that "only" changes how diagnostics are
+   rendered - colour, -fmessage-length, -fdiagnostics-show-option - changes the replayed result.) *)
+Definition DroppedFromKey : list bytes := [].
+
+Definition key_order_expected : list bytes :=
+  [ bs "start_of_compilation"; bs "preprocessor_cache_entry_hash_key"; bs "preprocess";
+    bs "process_preprocessed_file"; bs "hash_key"; bs "add_result" ].
+
+Theorem hash_key_side_conditions :
+  (* nothing is filtered out of the vectors except by a reviewed predicate *)
+  subset_b (dropped_preds main_key_args ++ dropped_preds pp_key_args) DroppedFromKey = true /\
+  (* the result key sees all of common_args and arch_args; the preprocessor-level key all three lists it depends on *)
+  has_whole_list main_key_args DCommon = true /\ has_whole_list main_key_args DArch = true /\
+  has_whole_list pp_key_args DPre = true /\ has_whole_list pp_key_args DArch = true /\
+  has_whole_list pp_key_args DCommon = true /\
+  (* profile / coverage builds: the output path is part of both *)
+  existsb (fun c => match c with KProfileOutput => true | _ => false end) main_key_args = true /\
+  existsb (fun c => match c with KProfileOutput => true | _ => false end) pp_key_args = true /\
+  (* both key functions filter the environment by their OWN list: if generate_hash_key cuts the environment down
+     beforehand, the cut must keep every variable of both lists *)
+  match env_prefilter with
+  | None => true
+  | Some l => subset_b (main_key_env ++ pp_key_env) l
+  end = true /\
+  (* the variables of the result key are among those of the preprocessor-level key (S16) *)
+  subset_b main_key_env pp_key_env = true /\
+  (* the reference time of the "include is too new" guard is taken before the preprocessor runs *)
+  key_order = key_order_expected.
+Proof. repeat split; vm_compute; reflexivity. Qed.
+
+Theorem hashed_args_reach_hash_key :
+  forall (p : parsed) (po : option bytes), incl (hashed_args p) (key_words main_key_args p po).
+Proof.
+  intros p po. apply hashed_args_reach_key; apply hash_key_side_conditions.
+Qed.
